@@ -220,7 +220,9 @@ func (s *Sim) afterBlock(qseed uint64) {
 				// for an asset at an application's index is a caller error, not a ledger answer
 				idx := basics.CreatableIndex(1000 + rg.IntN(40))
 				isApp := false
-				for rr := lo; rr <= hi; rr++ {
+				// (look at the whole history, not only the served window: an account may keep its local state of an
+				// application that was deleted long ago - thorough sweep, C13 seed 101)
+				for rr := basics.Round(0); rr <= hi; rr++ {
 					if st2 := s.states[rr]; st2 != nil {
 						if _, ok := st2.Creators[creatKey{idx, basics.AppCreatable}]; ok {
 							isApp = true
